@@ -7,7 +7,7 @@ From AgileV Require Import Evo.Heap Evo.Evo Evo.EvoProofs C01.Model C01.Proofs.
 Open Scope N_scope.
 
 (* INDEPENDENT 1 — every location the copy owns (weights, hidden encoder copies, size lists, optimizer
-   moments and step counters, RLParameter objects, score lists, other tensors) is newly allocated, no
+   moments and step counters, RL-param objects, score lists, other tensors) is newly allocated, no
    location occurs twice in it, and making the copy writes nothing that existed before. *)
 Theorem clone_fresh : forall (idx : option N) (s : store) (a : agent),
   let r := clone_agent idx s a in
@@ -58,7 +58,7 @@ Print Assumptions local_frame.
 
 (* FAITHFUL — for a registry without mutation hooks the copy has the same label, architecture descriptors,
    optimizer settings, hyper-parameter values, registry, and the same content in every cell of every block
-   (weights, buffers, hidden tensors, size lists, optimizer moments and step counters, RLParameter
+   (weights, buffers, hidden tensors, size lists, optimizer moments and step counters, RL-param
    objects, score lists, other tensors) as its parent. *)
 Theorem clone_faithful_nohooks : forall (idx : option N) (s : store) (a : agent),
   r_hooks (a_reg a) = [] -> Forall (fun l => l < s_next s) (agent_locs a) ->
